@@ -10,6 +10,12 @@ Model: `Model/Delta.lean` (`capture`, the gated `apply`, `observable`, the dense
   C. a dictionary key whose child never became valid;
 `GoodHist` — a history of such ticks with arbitrary gaps (a cycle without tick is `clear`).
 
+Schemas include the DYNAMIC list `tsld e` (`TSL<e>` without a size: grows on `at(i)`, skipped indices are
+never-ticked placeholders); for it `Tick` additionally excludes
+  D. growth that no entry of the delta witnesses (`at(i)` past the end whose new last child does not tick).
+`Props/C20Dyn.lean` restates the theorems below for dynamic lists and refutes the "append at the next free
+position" rule and the unrestricted statement (situation D).
+
 Property theorems (every schema `s` that is well formed, every state, every history):
 
 * `apply_capture`        `apply pre (capture m) = m` — the copy equals the post-tick state *including* its
